@@ -119,6 +119,26 @@ def run(tier):
     all_inputs = texts + foreign + corp
     outs = C.run_impl_parallel("trees", all_inputs)
     stats = {"generated_ok": 0, "reader_ok": 0, "foreign_rejected": 0, "foreign_accepted_derivable": 0, "corpus_accepted": 0}
+    # the exposed tree stays what was written when the object is used (get_smiles, summary), under every option set,
+    # also for glycans with undetermined linkages
+    import re as _re
+    qtexts = [x for x in (_re.sub(r"-(\d)\)", "-?)", s, count=1) for s in texts[:40 if tier == "quick" else 300]) if "?" in x] + \
+             [x for x in (_re.sub(r"\(([ab])(\d)-", r"(?\2-", s, count=1) for s in texts[:20 if tier == "quick" else 150]) if "?" in x]
+    stats["tree_after_use"] = 0
+    for kw in ({"tree_only": True}, {"full": False}, {"full": False, "tree_only": True}, {}):
+        use_in = (texts[:60 if tier == "quick" else 400] + qtexts)
+        for s_, o_ in zip(use_in, C.run_impl_parallel("trees", use_in, extra={"kw": kw})):
+            if not o_.get("accepted") or o_.get("nodes_after") is None:
+                continue
+            stats["tree_after_use"] += 1
+            before = sorted((n[0], n[1]) for n in o_["nodes"])
+            after = sorted((n[0], n[1]) for n in o_["nodes_after"])
+            nres = sum(1 for k_, _ in o_["items"] if k_ == "R")
+            if before != after or o_["edges"] != o_["edges_after"] or len(after) != nres:
+                report.fail({"site": "exposed-tree", "kind": "changes-with-use", "options": json.dumps(kw, sort_keys=True)},
+                            {"input": s_, "options": kw, "nodes_after_construction": before, "nodes_after_get_smiles_and_summary": after,
+                             "residues_written": nres,
+                             "problem": "the tree handed out by get_tree() is no longer the written glycan after get_smiles() / summary() were called"})
     for i, (s, o) in enumerate(zip(all_inputs, outs)):
         gen = i < len(texts)
         report.case(s, o.get("accepted", False), {"input": s[:100], "nodes": len(o.get("nodes", []))} if i < 4 else None)
